@@ -939,7 +939,7 @@ fn cmd_faults(args: &[String]) {
 // ---------------------------------------------------------------------------------------
 // fuzz: C03, structure-aware mutation of valid messages + random bytes, all decoder options
 // ---------------------------------------------------------------------------------------
-const HOSTILE_STR: &[&str] = &["\u{C3}\u{A9}", "\u{e9}", "\u{4e2d}", "\"", "\\", "\u{0}", "\u{fd}\u{80}", "\u{7f}", " ", "\u{1F600}"];
+const HOSTILE_STR: &[&str] = &["\u{C3}\u{A9}", "\u{e9}", "\u{4e2d}", "\"", "\\", "\u{0}", "\u{fd}\u{80}", "\u{7f}", " ", "\u{1F600}", "\u{C3}\u{A0}", "\u{C3}\u{85}", "\u{2028}", "\t"];
 
 fn mutate(rng: &mut StdRng, base: &[u8]) -> Vec<u8> {
     let mut b = base.to_vec();
